@@ -341,7 +341,7 @@ def gen_params_wild(ctx, nmax=10):
         elif r < 0.62:
             t, sh = rng.choice(["interface"] + ctx.vis_ifaces()), None
         elif r < 0.78:
-            t, sh = rng.choice(["interface"] + ctx.vis_ifaces()), "[%d]" % rng.choice([1, 2, 3, 14, 15, 16, 17])
+            t, sh = rng.choice(["interface"] + ctx.vis_ifaces()), "[%d]" % rng.choice([1, 2, 3, 14, 15, 16, 17, 255, 256, 257, 260, 271, 272, 512, 65535])
         elif withobj:
             t, sh = rng.choice(withobj), None
         else:
